@@ -146,7 +146,16 @@ class Inductor(Entity):
         self._last_arrival_time = now
 
         if self._can_forward(now):
-            return self._forward(event, now)
+            if self._queue.is_empty():
+                return self._forward(event, now)
+            # Older requests are waiting: forward the head of the queue and let
+            # the new arrival take its place at the tail (FIFO).
+            oldest = self._queue.pop()
+            result = self._forward(oldest, now)
+            self._queue.push(event)
+            self._queued += 1
+            result.extend(self._ensure_poll_scheduled(now))
+            return result
 
         # Queue the event
         if self._queue.push(event):
